@@ -4,10 +4,12 @@ import (
 	"fmt"
 	"io/fs"
 	"regexp"
+	"sort"
 	"strings"
 	"time"
 
 	"github.com/avfs/avfs"
+	"github.com/avfs/avfs/idm/memidm"
 	"github.com/avfs/avfs/verifrt"
 	"github.com/avfs/avfs/vfs/memfs"
 	"github.com/avfs/avfs/vfs/orefafs"
@@ -15,12 +17,51 @@ import (
 	"verif/lib/fsx"
 )
 
+// sideCfg is the configuration dimension of an instance.
+//
+// General lesson: an emulation has two halves, the file system and whatever it
+// takes its defaults from. An instance built by the harness's own recipe (one
+// system directory chosen by the harness, the default identity manager, which
+// is typed after the HOST) never reaches the code that derives names from the
+// emulated type: the administrator's name, the home and temporary directories,
+// the tree the constructor creates by itself. The emulation therefore has to be
+// judged in the default configuration of the emulated OS as well, and every
+// component that takes an OS type has to be given the same one.
+type sideCfg struct {
+	sysDirs bool // the constructor creates its default system directories (avfs.SystemDirs) instead of the harness's single /tmp
+	idmSame bool // identity manager of the same emulated OS type (kinds that take one: MemFS); false = the constructor's default
+}
+
+func (c sideCfg) String() string {
+	if c == (sideCfg{}) {
+		return ""
+	}
+
+	sd, idm := "harness", "default"
+
+	if c.sysDirs {
+		sd = "default"
+	}
+
+	if c.idmSame {
+		idm = "same-type"
+	}
+
+	return "sysdirs=" + sd + ",idm=" + idm
+}
+
 // side is one real instance of a twin pair.
 type side struct {
-	kind string // MemFS | OrefaFS
-	win  bool
-	v    avfs.VFS
-	root string // "/" or `C:\`
+	kind   string // MemFS | OrefaFS
+	win    bool
+	v      avfs.VFS
+	root   string // "/" or `C:\`
+	cfg    sideCfg
+	sysTop map[string]bool // cfg.sysDirs: names present in the root directory right after construction (the system area)
+	// hideSys: the running call lists from outside the default locations; the
+	// entries of the system area (different names, depths and number on the two
+	// types) are left out of what it returns
+	hideSys bool
 }
 
 func (s *side) osName() string {
@@ -43,7 +84,14 @@ func osTypeOf(win bool) avfs.OSType {
 // umask 022 and the current directory set to the root (explicit Chdir; its
 // result is returned: OrefaFS cannot address its root, under either OS type).
 func newSide(kind string, win bool) (s *side, chdir result, err error) {
-	s = &side{kind: kind, win: win, root: "/"}
+	return newSideCfg(kind, win, sideCfg{})
+}
+
+// newSideCfg is newSide for any configuration: with cfg.sysDirs the system
+// directories are the constructor's own, with cfg.idmSame a MemFS gets a
+// MemIdm of its own OS type.
+func newSideCfg(kind string, win bool, cfg sideCfg) (s *side, chdir result, err error) {
+	s = &side{kind: kind, win: win, root: "/", cfg: cfg}
 	tmp := "/tmp"
 
 	if win {
@@ -51,12 +99,21 @@ func newSide(kind string, win bool) (s *side, chdir result, err error) {
 	}
 
 	dirs := []avfs.DirInfo{{Path: tmp, Perm: 0o777}}
+	if cfg.sysDirs {
+		dirs = nil
+	}
+
 	ost := osTypeOf(win)
 
 	k, msg := fsx.Guard(func() {
 		switch kind {
 		case "MemFS":
-			s.v = memfs.NewWithOptions(&memfs.Options{OSType: ost, SystemDirs: dirs})
+			o := &memfs.Options{OSType: ost, SystemDirs: dirs}
+			if cfg.idmSame {
+				o.Idm = memidm.NewWithOptions(&memidm.Options{OSType: ost})
+			}
+
+			s.v = memfs.NewWithOptions(o)
 		case "OrefaFS":
 			s.v = orefafs.NewWithOptions(&orefafs.Options{OSType: ost, SystemDirs: dirs})
 		default:
@@ -71,10 +128,89 @@ func newSide(kind string, win bool) (s *side, chdir result, err error) {
 		return nil, chdir, fmt.Errorf("constructor of %s did not produce OS type %v (got %v)", kind, ost, got)
 	}
 
+	if cfg.sysDirs {
+		s.sysTop = map[string]bool{}
+
+		_, _ = fsx.Guard(func() {
+			es, _ := s.v.ReadDir(s.root)
+			for _, e := range es {
+				s.sysTop[e.Name()] = true
+			}
+		})
+	}
+
 	_ = s.v.SetUMask(0o022)
 	_, chdir = s.do(fsx.Call{Op: "Chdir", A: "/"})
 
 	return s, chdir, nil
+}
+
+// Default locations ("roles"). The directories an OS keeps for temporary files
+// and for its users have different names and different depths on the two types
+// (/tmp, /home, /root against C:\Users\<name>\AppData\Local\Temp, C:\Users,
+// C:\Users\<name>): their portable spelling is the role, resolved on each
+// instance by the library's own helper for the instance's current user.
+//
+//	"$TMP"       vfs.TempDir()              ("" as dir of CreateTemp/MkdirTemp means the same directory)
+//	"$HOME"      avfs.HomeDir(vfs, vol)
+//	"$HOMEUSER"  avfs.HomeDirUser(vfs, vol, vfs.User())   (kinds with an identity manager)
+//	"$TMP/a"     Join(vfs.TempDir(), "a")
+//
+// vol is the volume of the instance's root ("" resp. "C:"), the base path the
+// constructors themselves give to avfs.SystemDirs. The other spelling in use,
+// base path "" on both types (a rooted path without volume on the Windows
+// type), is judged in part (A), runDefaults.
+var allRoles = []string{"$TMP", "$HOME", "$HOMEUSER"}
+
+// roles lists the roles of this instance (none outside the default
+// configuration: there the only system directory is the harness's own /tmp).
+func (s *side) roles() []string {
+	if !s.cfg.sysDirs {
+		return nil
+	}
+
+	if !s.v.HasFeature(avfs.FeatIdentityMgr) {
+		return allRoles[:2]
+	}
+
+	return allRoles
+}
+
+// rolePath resolves a role through the library's helpers.
+func (s *side) rolePath(role string) string {
+	switch role {
+	case "$TMP":
+		return s.v.TempDir()
+	case "$HOME":
+		return avfs.HomeDir(s.v, avfs.VolumeName(s.v, s.root))
+	case "$HOMEUSER":
+		return avfs.HomeDirUser(s.v, avfs.VolumeName(s.v, s.root), s.v.User())
+	}
+
+	panic("c17: unknown role " + role)
+}
+
+// obsRolePath is the role's directory for the harness's own observations (tree
+// dump): should a helper return a rooted path without volume it is anchored on
+// the volume of the root, so that the observation never depends on the current
+// directory. The operands of the calls under test stay as the helper spelled them.
+func (s *side) obsRolePath(role string) string {
+	p := s.v.Join(s.rolePath(role))
+
+	if !s.v.IsAbs(p) && p != "" && avfs.IsPathSeparator(s.v, p[0]) {
+		p = avfs.VolumeName(s.v, s.root) + p
+	}
+
+	return p
+}
+
+func isRolePath(p string) bool { return strings.HasPrefix(p, "$") }
+
+// roleOf splits "$ROLE/rest" into the role and the remaining components.
+func roleOf(p string) (role string, rest []string) {
+	comps := strings.Split(p, "/")
+
+	return comps[0], comps[1:]
 }
 
 // Portable paths. The alphabet is written once, in slash form:
@@ -82,9 +218,12 @@ func newSide(kind string, win bool) (s *side, chdir result, err error) {
 //	"/"        the root of the file system (Linux "/", Windows `C:\`)
 //	"/a/b"     Join(root, "a", "b") through the instance's own Join
 //	"a/b"      Join("a", "b") (relative to the current directory)
-//	""         not a path (unused operand)
+//	"$TMP/a"   Join(<default location>, "a") (roles, see rolePath)
+//	""         not a path (unused operand; the default directory of CreateTemp/MkdirTemp)
 //
-// so no path string of one OS is ever given to the other.
+// so no path string of one OS is ever given to the other. Glob patterns are
+// written the same way: their elements hold no separator and no '\\' (an
+// escape on one type, a separator on the other), Join leaves them as they are.
 func (s *side) path(p string) string {
 	if p == "" {
 		return ""
@@ -92,6 +231,12 @@ func (s *side) path(p string) string {
 
 	if p == "/" {
 		return s.root
+	}
+
+	if isRolePath(p) {
+		role, rest := roleOf(p)
+
+		return s.v.Join(append([]string{s.rolePath(role)}, rest...)...)
 	}
 
 	comps := strings.Split(strings.TrimPrefix(p, "/"), "/")
@@ -127,7 +272,30 @@ type result struct {
 // random sequence ("0","1","0",...) so that both sides see the same temp names
 // and collisions are forced. Panics and decided deadlocks are outcomes.
 func (s *side) do(c fsx.Call) (fsx.Call, result) {
+	s.hideSys = s.cfg.sysDirs && !isRolePath(c.A)
+	defer func() { s.hideSys = false }()
+
 	return s.doConcrete(s.concrete(c))
+}
+
+// hidden says whether a path returned by a listing call lies in the system
+// area (hideSys only).
+func (s *side) hidden(p string) bool {
+	if !s.hideSys {
+		return false
+	}
+
+	if !s.v.IsAbs(p) {
+		cwd, _ := s.v.Getwd()
+		p = s.v.Join(cwd, p)
+	}
+
+	top := strings.TrimPrefix(s.plainNorm(p), "/")
+	if i := strings.Index(top, "/"); i >= 0 {
+		top = top[:i]
+	}
+
+	return s.sysTop[top]
 }
 
 func (s *side) doConcrete(cc fsx.Call) (fsx.Call, result) {
@@ -140,7 +308,7 @@ func (s *side) doConcrete(cc fsx.Call) (fsx.Call, result) {
 		err error
 	)
 
-	k, msg := fsx.Guard(func() { val, err = rawCall(s.v, cc) })
+	k, msg := fsx.Guard(func() { val, err = s.rawCall(cc) })
 
 	verifrt.SetRandom(nil)
 
@@ -157,8 +325,10 @@ func (s *side) doConcrete(cc fsx.Call) (fsx.Call, result) {
 }
 
 // rawCall performs one namespace call and returns the canonical rendering of
-// the returned value (as fsx.Do does) and the raw error.
-func rawCall(v avfs.VFS, c fsx.Call) (val string, err error) {
+// the returned value (as fsx.Do does; the paths returned by Glob and handed to
+// the function of WalkDir already in portable spelling) and the raw error.
+func (s *side) rawCall(c fsx.Call) (val string, err error) {
+	v := s.v
 	perm := fsx.UnixMode(c.Perm)
 
 	closeIf := func(f avfs.File, err error) {
@@ -224,8 +394,11 @@ func rawCall(v avfs.VFS, c fsx.Call) (val string, err error) {
 		es, err := v.ReadDir(c.A)
 
 		var names []string
+
 		for _, e := range es {
-			names = append(names, e.Name()+fsx.TypeChar(e.Type()))
+			if !s.hidden(v.Join(c.A, e.Name())) {
+				names = append(names, e.Name()+fsx.TypeChar(e.Type()))
+			}
 		}
 
 		return strings.Join(names, ","), err
@@ -239,6 +412,35 @@ func rawCall(v avfs.VFS, c fsx.Call) (val string, err error) {
 		return v.Readlink(c.A)
 	case "EvalSymlinks":
 		return v.EvalSymlinks(c.A)
+	case "Glob":
+		ms, err := v.Glob(c.A)
+		out := make([]string, 0, len(ms))
+
+		for _, m := range ms {
+			if !s.hidden(m) {
+				out = append(out, s.normPath(m))
+			}
+		}
+
+		return strings.Join(out, ","), err
+	case "WalkDir":
+		var out []string
+
+		err := v.WalkDir(c.A, func(p string, d fs.DirEntry, err error) error {
+			switch {
+			case len(out) > 4096:
+				return fmt.Errorf("walk-too-long")
+			case s.hidden(p):
+			case err != nil:
+				out = append(out, s.normPath(p)+"!"+portableClass(fsx.ErrKind(err)))
+			default:
+				out = append(out, s.normPath(p)+fsx.TypeChar(d.Type()))
+			}
+
+			return nil
+		})
+
+		return strings.Join(out, ","), err
 	case "Rename":
 		return "", v.Rename(c.A, c.B)
 	case "Link":
@@ -251,8 +453,32 @@ func rawCall(v avfs.VFS, c fsx.Call) (val string, err error) {
 }
 
 // normPath makes an absolute or relative path of this instance portable:
-// volume stripped, separators turned into '/'.
+// volume stripped, separators turned into '/', and in the default
+// configuration a default location replaced by its role (the longest one:
+// on the Windows type the roles are nested).
 func (s *side) normPath(p string) string {
+	return s.roleNorm(s.plainNorm(p))
+}
+
+// roleNorm replaces a default location at the head of a portable path by its role.
+func (s *side) roleNorm(q string) string {
+	best, bestLen := "", 0
+
+	for _, r := range s.roles() {
+		rp := s.plainNorm(s.rolePath(r))
+		if len(rp) > bestLen && strings.HasPrefix(rp, "/") && (q == rp || strings.HasPrefix(q, rp+"/")) {
+			best, bestLen = r, len(rp)
+		}
+	}
+
+	if best != "" {
+		return best + q[bestLen:]
+	}
+
+	return q
+}
+
+func (s *side) plainNorm(p string) string {
 	if p == "" {
 		return ""
 	}
@@ -278,7 +504,9 @@ func (s *side) cwd() string {
 }
 
 // topCandidates are the top-level names that can exist in the explored universe
-// (used only when the root directory itself cannot be listed).
+// (used only when the root directory itself cannot be listed). "tmp" is the
+// harness's own system directory: in the default configuration the temporary
+// directory is the role $TMP.
 var topCandidates = []string{"a", "b", "t0", "t1", "tmp"}
 
 // dump returns the portable tree dump: fsx.Dump without permission bits and
@@ -286,7 +514,127 @@ var topCandidates = []string{"a", "b", "t0", "t1", "tmp"}
 // relative link targets in slash form, error kinds inside the dump as classes.
 // rootOK is false when the root cannot be Lstat-ed (then the candidates are
 // dumped one by one).
+//
+// In the default configuration the tree the constructor created is compared in
+// portable spelling: one line per role ("$HOME d", "$TMP !lstat:notfound" ...)
+// and the whole tree below $TMP under that name; the other entries that exist
+// right after construction (the system area: home, root, tmp / Users, Windows)
+// have no counterpart on the other type and are left out, everything created
+// later beside them is dumped as usual.
 func (s *side) dump() (lines []string, rootOK bool) {
+	lines, rootOK = s.dumpUser()
+	if !s.cfg.sysDirs {
+		return lines, rootOK
+	}
+
+	kept := lines[:0:0]
+	seen := map[string]bool{}
+
+	// the system area is part of the dump of a root that can be listed: its
+	// lines are renamed after the roles or dropped
+	for _, l := range lines {
+		name, rest := l, ""
+		if i := strings.Index(l, " "); i >= 0 {
+			name, rest = l[:i], l[i:]
+		}
+
+		if name == "." {
+			kept = append(kept, l)
+
+			continue
+		}
+
+		top := name
+		if i := strings.Index(top, "/"); i >= 0 {
+			top = top[:i]
+		}
+
+		pn := s.roleNorm("/" + name)
+
+		switch {
+		case pn == "$TMP" || strings.HasPrefix(pn, "$TMP/"):
+			seen["$TMP"] = true
+			kept = append(kept, pn+rest)
+		case isRolePath(pn) && !strings.Contains(pn, "/"):
+			seen[pn] = true
+			kept = append(kept, pn+" "+strings.Fields(rest + " ?")[0])
+		case s.sysTop[top]:
+		default:
+			kept = append(kept, l)
+		}
+	}
+
+	for _, r := range s.roles() {
+		if seen[r] {
+			continue
+		}
+
+		rp := s.obsRolePath(r)
+
+		var sub []string
+
+		k, msg := fsx.Guard(func() {
+			sub = fsx.Dump(s.v, rp, fsx.DumpOpts{NoPerm: true, NoOwner: true, StripPfx: rp})
+		})
+		if k != "" {
+			kept = append(kept, r+" !"+k+" "+msg)
+
+			continue
+		}
+
+		for i, l := range sub {
+			l = s.normLine(l)
+
+			switch {
+			case strings.HasPrefix(l, ". "):
+				l = r + l[1:]
+			case strings.HasPrefix(l, "/"):
+				l = r + l
+			}
+
+			if r != "$TMP" { // the type of the location only
+				if i == 0 {
+					kept = append(kept, r+" "+strings.Fields(l)[1])
+				}
+
+				continue
+			}
+
+			// hard-link classes of a separate dump are a numbering of their own
+			kept = append(kept, strings.Replace(l, " #", " #T", 1))
+		}
+	}
+
+	sort.SliceStable(kept, func(i, j int) bool {
+		return strings.SplitN(kept[i], " ", 2)[0] < strings.SplitN(kept[j], " ", 2)[0]
+	})
+
+	// hard-link classes are numbered in the order of the dump: number them
+	// again in the order of the portable names
+	classes := map[string]string{}
+
+	for i, l := range kept {
+		m := classRe.FindStringSubmatchIndex(l)
+		if m == nil {
+			continue
+		}
+
+		c := l[m[2]:m[3]]
+		if _, ok := classes[c]; !ok {
+			classes[c] = fmt.Sprint(len(classes))
+		}
+
+		kept[i] = l[:m[2]] + classes[c] + l[m[3]:]
+	}
+
+	return kept, rootOK
+}
+
+// classRe finds the hard-link class of a file line ("name f ---- -:- szN nN #C content").
+var classRe = regexp.MustCompile(`^\S+ f \S+ \S+ sz\d+ n\d+ #(\S+) `)
+
+// dumpUser dumps the tree below the root of the instance.
+func (s *side) dumpUser() (lines []string, rootOK bool) {
 	o := fsx.DumpOpts{NoPerm: true, NoOwner: true, StripPfx: s.root}
 
 	var raw []string
@@ -303,6 +651,10 @@ func (s *side) dump() (lines []string, rootOK bool) {
 		raw = []string{raw[0]}
 
 		for _, n := range topCandidates {
+			if s.cfg.sysDirs && n == "tmp" {
+				continue
+			}
+
 			var sub []string
 
 			k, msg := fsx.Guard(func() { sub = fsx.Dump(s.v, s.v.Join(s.root, n), o) })
